@@ -443,7 +443,10 @@ func (env *Env) call(n *ECall) Val {
 		v := arg(0)
 		tn := typeName(v.Typ)
 		box := x.decls.Fun("box:"+tn, []Sort{SInt}, SInt)
-		return Val{Typ: types.Typ[types.Int], C: []Term{app(SInt, box, v.T())}}
+		bv := app(SInt, box, v.T())
+		env.st.assume(Eq(x.uf("enumnum", []Sort{SInt}, SInt, bv), v.T()))
+		env.st.assume(Neq(bv, TZero))
+		return Val{Typ: types.Typ[types.Int], C: []Term{bv}}
 	case "enumnum":
 		v := arg(0)
 		return intVal(x.uf("enumnum", []Sort{SInt}, SInt, v.T()))
